@@ -117,8 +117,11 @@ for _integ, _t0 in (("whfast", 0.5), ("leapfrog", 0.0), ("ias15", -2.0)):
                      "ops": [["snap"], ["step", 2], ["snap"], ["set_t", _t0], ["snap"], ["step", 1], ["snap"], ["set_t", _t0], ["snap"]]})
 DIRECTED.append({"kind": "hist", "spec": {"n": 2, "integrator": "whfast", "dt": 0.05, "t0": 0.0},
                  "ops": [["snap"], ["integrate", 0.1, 1], ["snap"], ["setting", "dt", -0.05], ["integrate", -0.1, 1], ["set_t", 0.0], ["snap"]]})
+# smallest sizes: a simulation without particles, one particle; first snapshot written with delete_file=True on a missing file
+DIRECTED.append({"kind": "hist", "spec": {"n": 0, "integrator": "leapfrog"}, "ops": [["snap_del"], ["set_t", 1.0], ["snap"], ["snap"], ["add", 1.0, 1.0], ["snap"], ["remove_all"], ["snap"]]})
+DIRECTED.append({"kind": "hist", "spec": {"n": 1, "integrator": "ias15", "t0": -2.0}, "ops": [["snap_del"], ["snap"], ["add_test", 3.0], ["snap"], ["remove_idx", 1, 0], ["snap"]]})
 # correspondence (bytes through Coq) also sees one-member changes
-CORR_EXTRA = [DIRECTED[7], DIRECTED[12], DIRECTED[10], DIRECTED[-5], DIRECTED[21], DIRECTED[-4], DIRECTED[-1]]
+CORR_EXTRA = [DIRECTED[7], DIRECTED[12], DIRECTED[10], DIRECTED[-7], DIRECTED[21], DIRECTED[-6], DIRECTED[-3], DIRECTED[-2], DIRECTED[-1]]
 
 
 def gen_auto(rng):
@@ -255,7 +258,7 @@ def run(ctx):
     rng = ctx.rng
 
     # ---- correspondence histories (bytes exchanged with Coq): small N
-    ncorr = ctx.scale(20, 80)
+    ncorr = ctx.scale(22, 80)
     cjobs = [dict(copy.deepcopy(d), bytes=True) for d in DIRECTED[:5] + CORR_EXTRA]
     while len(cjobs) < ncorr:
         cjobs.append(dict(gen_history(rng, small=True), bytes=True))
@@ -324,12 +327,20 @@ def run(ctx):
                       "property=C06 %s cadence: snapshot %s restored differs from the live simulation right after it was written in %s (snapshot next_step=%s next=%s, live next_step=%s next=%s)"
                       % (job["mode"], b0.get("snapshot"), b0.get("fields"), b0.get("snapshot_next_step"), b0.get("snapshot_next"), b0.get("live_next_step"), b0.get("live_next")))
 
+    # ---- cadence value 0 = disabled, for all three cadences
+    dr = run_jobs(libdir, [[{"kind": "disabled"}]], timeout=60)[0]
+    d0 = dr[0] if isinstance(dr, list) else {"died": str(dr)}
+    ctx.case(key=("disabled",), sample=None)
+    if any(not isinstance(v, dict) or v.get("file_created") for v in d0.values()) or "exception" in d0 or "died" in d0:
+        ctx.violation("zero-cadence-not-disabled", {"result": d0, "how": "tools/c06_driver.py job_disabled"}, True,
+                      "property=C06 attaching an archive with cadence value 0 (interval / walltime / step) wrote snapshots or failed: %s" % (d0,))
+
     # ---- cadence under histories mixing integrate(), manual step()/steps(k), detach / re-attach (all three cadences)
     mjobs = []
     for mode in ("step", "interval", "walltime"):
         for rep in range(ctx.scale(4, 30)):
             dt = rng.choice([0.01, 0.02, -0.015])
-            val = {"step": rng.randint(2, 12), "interval": abs(dt) * (rng.randint(2, 11) + 0.37), "walltime": 1e9}[mode]
+            val = {"step": rng.choice([1, 1, 2**63, 2**64 - 1, rng.randint(2, 12), rng.randint(2, 12)]), "interval": abs(dt) * (rng.randint(2, 11) + 0.37), "walltime": 1e9}[mode]
             ops = [["attach"]]
             for _ in range(rng.randint(3, 7)):
                 u = rng.random()
@@ -396,7 +407,9 @@ def run(ctx):
     for _ in range(ctx.scale(24, 200)):
         dt = rng.choice([0.05, 0.02, -0.04, 0.1313])
         t0 = rng.choice([0.0, 1.0, -2.0, 1e6, 1e9, -1e12, 3e12])   # dt is never absorbed by t; tiny intervals are
-        iv = rng.choice([abs(dt) * rng.uniform(0.2, 5.0), abs(dt), 3 * abs(dt), abs(dt) * 0.37, 1e-3 * abs(dt), abs(dt) * (rng.randint(1, 4) + 0.37)])
+        iv = rng.choice([abs(dt) * rng.uniform(0.2, 5.0), abs(dt), 3 * abs(dt), abs(dt) * 0.37, 1e-3 * abs(dt), abs(dt) * (rng.randint(1, 4) + 0.37),
+                         # edges of the domain: disabled, negative, NaN, infinite, longer than the whole run, subnormal
+                         0.0, -0.0, -abs(dt) * 2.5, float("nan"), float("inf"), 1e9, 5e-324])
         fjobs.append({"kind": "autoF", "spec": {"n": 2, "integrator": rng.choice(["whfast", "leapfrog", "ias15"]), "dt": dt, "t0": t0},
                       "interval": iv, "presteps": rng.randint(0, 2), "chunks": [rng.randint(1, 9) for _ in range(rng.randint(1, 4))]})
     fres = run_jobs(libdir, [fjobs[i:i + 6] for i in range(0, len(fjobs), 6)], timeout=120)
